@@ -79,7 +79,10 @@ def run_shard(spec, acc):
     rng = gen.rng_for(spec["seed"], ID, spec["name"])
     quick = spec["tier"] == "quick"
     defs = [d for d in dbx.defs if d.supported and d.fixed_layout]
-    defs = [d for k, d in enumerate(defs) if k % spec["n"] == spec["i"]]
+    # all definitions of a PGN number in the same shard: sibling definitions must meet on one long-lived decoder
+    pgn_order = sorted({d.pgn for d in defs})
+    mine = {p for k, p in enumerate(pgn_order) if k % spec["n"] == spec["i"]}
+    defs = [d for d in defs if d.pgn in mine]
     sources = [1, 2, 77]
     decA = claimed_decoder(sources)
     decB = claimed_decoder(sources, preferred_units={PhysicalQuantities.TEMPERATURE: "C", PhysicalQuantities.ANGLE: "deg",
@@ -117,12 +120,17 @@ def run_shard(spec, acc):
             acc.violation("different-key-equal-hash", f"hash {m.hash} shared by {prevk[0]} and {k}", {"a": prevk[1], "b": w})
         return m.hash
 
-    for d in defs:
-        nb = d.length if d.length is not None else (d.total_bits() + 7) // 8
-        keys = [f for f in d.fields if f.pk and f.match is None]
-        nonkeys = [f for f in d.fields if not f.pk and f.match is None]
-        for fam in range(n_fam):
+    shared_keys = {}          # (pgn, fam, position) -> raw: siblings get equal raw values in their key fields
+    for fam in range(n_fam):
+        for d in defs:
+            nb = d.length if d.length is not None else (d.total_bits() + 7) // 8
+            keys = [f for f in d.fields if f.pk and f.match is None]
+            nonkeys = [f for f in d.fields if not f.pk and f.match is None]
             base = gen.base_raws(d, rng, dbx)
+            for pos_k, f in enumerate(keys):
+                want = shared_keys.setdefault((d.pgn, fam, pos_k), base[f.order])
+                if want <= f.mask and (f.ftype == "LOOKUP" or f.in_range(want)) and want != f.na_raw():
+                    base[f.order] = want
             p0 = dbx.pack(d, base)
             if dbx.select(d.pgn, p0) is not d:
                 continue
@@ -167,8 +175,8 @@ def run_shard(spec, acc):
                 pass
             if fam == 0:
                 cross.append((d, p0, nb, h0))
-        acc.cover("definitions", d.id)
-        acc.cover("key_field_counts", len(keys))
+            acc.cover("definitions", d.id)
+            acc.cover("key_field_counts", len(keys))
     # definitions whose key is a variable-length string (station ids): same text -> same hash, other text -> other hash
     from .c01 import variable_cases
     for d in [x for x in dbx.defs if x.supported and not x.fixed_layout and any(f.pk for f in x.fields) and x.index % spec["n"] == spec["i"]]:
